@@ -299,6 +299,16 @@ func (g *sessGen) expr(vars []string, depth int) string {
 	}
 	// a wider range of special forms (every head symbol the pretty printer has a layout for, with argument counts at
 	// and beyond what the layout expects); all of them total and numeric, so that they nest
+	if len(g.macros) > 0 && g.curFun != "" && g.r.Chance(12) {
+		// a function body uses a macro, whatever its name: the macros are reloaded first (repo_fixes/C19-16)
+		var ms []string
+		for m := range g.macros {
+			ms = append(ms, m)
+		}
+		sort.Strings(ms)
+		g.hist("expr:macro-call")
+		return fmt.Sprintf("(%s %s)", ms[g.r.Intn(len(ms))], atom())
+	}
 	if g.r.Chance(45) {
 		return g.special(vars, depth, atom)
 	}
